@@ -222,8 +222,8 @@ def check_sort(prog: Program, res: Result) -> None:
     res.floor(R, 5)
 
 
-def check_crop(prog: Program, res: Result) -> None:
-    R = "C12-crop"
+def check_crop(prog: Program, res: Result, rule: str = "C12-crop", floor: int = 16) -> None:
+    R = rule
     fi = prog.func("sleap_nn.inference.topdown:CentroidCrop._generate_crops")
     res.touch(fi)
     cfg = CFG(fi.node)
@@ -235,6 +235,45 @@ def check_crop(prog: Program, res: Result) -> None:
     tg = [norm(e) for e in lp.target.elts] if isinstance(lp.target, ast.Tuple) else []
     srcs = [norm(a) for a in lp.iter.args]
     res.ob(R, len(tg) == len(srcs) == 7, fi.qualname, "seven aligned per-sample sequences", f"zip of {len(srcs)} sequences into {len(tg)} names", fi.where)
+    # every zipped sequence has one entry PER FRAME of the batch, in batch order: the batch dict's own lists, the per-sample
+    # lists filled once per sample (C12-split/C12-topk), or an unfiltered element-wise map of those.  A filtered sequence
+    # (comprehension with `if`, filter(), boolean/slice indexing) is shorter after an empty frame and shifts every later
+    # frame's centroids onto an earlier frame's image and indices.
+    def _per_frame(e: ast.AST, depth: int = 3):
+        if isinstance(e, ast.Subscript) and isinstance(e.slice, ast.Constant) and norm(e.value) == "inputs":
+            return True, "batch dict list"
+        if isinstance(e, ast.Attribute) and isinstance(e.value, ast.Name) and e.value.id == "self":
+            return True, "per-sample attribute list"
+        if isinstance(e, ast.Name) and depth > 0:
+            defs = [d for d in astq.assignments_to(fi.node, e.id) if isinstance(d, ast.Assign)]
+            if len(defs) == 1:
+                return _per_frame(defs[0].value, depth - 1)
+            return None, f"`{e.id}` has {len(defs)} definitions"
+        if isinstance(e, ast.ListComp):
+            if any(g.ifs for g in e.generators) or len(e.generators) != 1:
+                return False, "filtered comprehension"
+            it = e.generators[0].iter
+            parts = it.args if isinstance(it, ast.Call) and norm(it.func) == "zip" else [it]
+            for q in parts:
+                ok, why = _per_frame(q, depth - 1)
+                if not ok:
+                    return ok, why
+            return True, "element-wise map"
+        if isinstance(e, ast.Call) and norm(e.func) in ("filter", "itertools.compress", "compress"):
+            return False, "filter()"
+        if isinstance(e, ast.Call) and norm(e.func) in ("list", "tuple") and e.args:
+            return _per_frame(e.args[0], depth - 1)
+        if isinstance(e, ast.Subscript):
+            return False, "sliced / mask-indexed sequence"
+        return None, f"unrecognised sequence `{short(e, 40)}`"
+
+    for a in lp.iter.args:
+        ok, why = _per_frame(a)
+        if ok is None:
+            raise AnalysisError(f"{fi.qualname}: zip argument {short(a, 40)}: {why}")
+        res.ob(R, ok, fi.qualname, f"zip argument `{short(a, 40)}` has one entry per frame ({why})",
+               f"zip argument `{short(a, 40)}` is a {why}: it has no entry for a frame without detections, so after such a frame the centroids of every later "
+               "frame are paired with an earlier frame's image, frame_idx, video_idx, orig_size and eff_scale", f"{fi.module.relpath}:{a.lineno}")
     var_of = {}
     for t, s in zip(tg, srcs):
         if s.startswith("inputs['"):
@@ -265,7 +304,7 @@ def check_crop(prog: Program, res: Result) -> None:
         w = cfg.must_pass(body_first, heads, an | cn, drop_edge=lambda x, y, labels: "exc" in labels)
         res.ob(R, len(apps) == 1 and w is None and ok_skip, fi.qualname, "record appended once per sample unless the sample is all-NaN",
                "a sample can complete the loop without its record being appended (other than the all-NaN skip)", fi.where)
-    res.floor(R, 9)
+    res.floor(R, floor)
 
 
 def _reductions(test: ast.AST, pol: int = 1):
@@ -360,6 +399,10 @@ VARIANTS = [
             "                    current_peak_vals, indices = torch.topk(\n                        current_peak_vals, max_instances, largest=False\n                    )", "C12-topk"),
     Variant("topk-not-applied", T, "                    current_peaks = current_peaks[indices]\n                    num_nans = 0", "                    current_peaks = current_peaks[:max_instances]\n                    num_nans = 0", "C12-topk"),
     Variant("sort-ascending", Q, "                        predicted_instances, key=lambda x: x.score, reverse=True", "                        predicted_instances, key=lambda x: x.score, reverse=False", "C12-sort"),
+    Variant("crop-filtered-zip", T, "        for centroid, centroid_val, image, fidx, vidx, sz, eff_sc in zip(\n            self.refined_peaks_batched,",
+            "        kept = [c for c in self.refined_peaks_batched if not torch.isnan(c).all()]\n        for centroid, centroid_val, image, fidx, vidx, sz, eff_sc in zip(\n            kept,", "C12-crop"),
+    Variant("bp-crop-mapped-zip", T, "        for centroid, centroid_val, image, fidx, vidx, sz, eff_sc in zip(\n            self.refined_peaks_batched,",
+            "        cents = [c.float() for c in self.refined_peaks_batched]\n        for centroid, centroid_val, image, fidx, vidx, sz, eff_sc in zip(\n            cents,", None),
     Variant("crop-wrong-fidx", T, "            ex[\"frame_idx\"] = torch.Tensor([fidx] * n)", "            ex[\"frame_idx\"] = torch.Tensor([vidx] * n)", "C12-crop"),
     Variant("crop-shared-dict", T, "            ex = {}\n            ex[\"image\"] = torch.cat([image] * n)", "            ex[\"image\"] = torch.cat([image] * n)", "C12-crop"),
     Variant("bp-mask-name", B, "        for b in range(self.batch_size):\n            cms_peaks.append(peaks[sample_inds == b])\n            cms_peak_vals.append(peak_vals[sample_inds == b].to(torch.float32))\n            cms_peak_channel_inds.append(peak_channel_inds[sample_inds == b])",
